@@ -36,6 +36,7 @@ class RobotsTxtChecker(object):
     def __init__(self, web_client: WebClient=None, robots_txt_pool: RobotsTxtPool=None):
         self._web_client = web_client or WebClient()
         self._robots_txt_pool = robots_txt_pool or RobotsTxtPool()
+        self._fetch_locks = {}
 
     @property
     def web_client(self) -> WebClient:
@@ -133,8 +134,24 @@ class RobotsTxtChecker(object):
         except NotInPoolError:
             pass
 
-        yield from self.fetch_robots_txt(request, file=file,
-                                         redirect_filter=redirect_filter)
+        # One fetch per origin: workers that need the same file wait for the
+        # first one instead of fetching it again, and a late duplicate cannot
+        # replace the rules that were obtained.
+        key = self._robots_txt_pool.url_info_key(request.url_info)
+        lock = self._fetch_locks.setdefault(key, asyncio.Lock())
+
+        yield from lock.acquire()
+
+        try:
+            try:
+                return self.can_fetch_pool(request)
+            except NotInPoolError:
+                pass
+
+            yield from self.fetch_robots_txt(request, file=file,
+                                             redirect_filter=redirect_filter)
+        finally:
+            lock.release()
 
         return self.can_fetch_pool(request)
 
